@@ -181,6 +181,7 @@ fn free_cfg() -> Cfg {
         pct_depth: 1,
         churn: None,
         crowd: None,
+        burst: None,
         repeat_pct: 0,
     }
 }
